@@ -325,7 +325,7 @@ def r_replace_map(chk, P, tier):
     U32 = 2**32 - 1
     leap_years = [y for y in years if cal.leap(y)]
     common_years = [y for y in years if not cal.leap(y)]
-    setter_years = (leap_years[:2] + common_years[:2] if quick else years) + [miny, maxy]
+    setter_years = (leap_years[:2] + common_years[:2] if quick else years) + [1900, 2100, miny, maxy]        # + common years divisible by 4
     for y in setter_years:
         dates = [(1, 1), (1, 31), (2, 28), (3, 1), (3, 31), (4, 30), (8, 31), (12, 31)] + ([(2, 29)] if cal.leap(y) else [])
         for (m, d) in dates:
@@ -345,7 +345,7 @@ def r_replace_map(chk, P, tier):
                 expect("with_year", ((y, m, d), y2), fold(DL + "with_year", [base, ("const", y2)]), ymd(y2, m, d))
     # whole years elapsed: later date vs base date on both sides of the anniversary, across the leap day
     keys = [(1, 1), (2, 28), (2, 29), (3, 1), (6, 15), (12, 31)]
-    ys = (leap_years[:2] + common_years[:3] if quick else years) + [miny, maxy]
+    ys = (leap_years[:2] + common_years[:3] if quick else years) + [1900, miny, maxy]
     for y1 in ys:
         for y2 in ys:
             for (m1, d1) in keys:
@@ -362,7 +362,7 @@ def r_replace_map(chk, P, tier):
                         got = "unknown: %s" % e
                     expect("years_since", ((y1, m1, d1), (y2, m2, d2)), got, w)
     # n-th weekday of a month
-    for y in years:
+    for y in years + [1900, 2100]:
         for m in range(1, 13):
             first_wd = cal.weekday(y, m, 1)
             for wd in range(7):
